@@ -18,7 +18,7 @@ open Ts Ts.Packet Ts.PesFilter Ts.Spec Ts.Spec.Protocol Ts.Props.C12
 def hdrOk (b : Bytes) : Bool :=
   decide (6 ≤ b.length) && (byteD b 0 == 0 && (byteD b 1 == 0 && byteD b 2 == 1))
 
-theorem pfx_eq_one (a b c : Nat) (ha : a < 256) (hb : b < 256) (hc : c < 256) :
+theorem pfx_eq_one (a b c : Nat) (_ha : a < 256) (hb : b < 256) (hc : c < 256) :
     ((a <<< 16) ||| (b <<< 8) ||| c) = 1 ↔ (a = 0 ∧ b = 0 ∧ c = 1) := by
   rw [Nat.shiftLeft_eq, Nat.shiftLeft_eq,
     or_eq_add 16 (Nat.dvd_mul_left _ _) (by omega),
@@ -37,7 +37,7 @@ theorem headerFromBytes_eq (b : Bytes) :
     have e := pfx_eq_one (byteD b 0) (byteD b 1) (byteD b 2) (byteD_lt b 0) (byteD_lt b 1) (byteD_lt b 2)
     by_cases hp : (byteD b 0 <<< 16 ||| byteD b 1 <<< 8 ||| byteD b 2) = 1
     · have ⟨h0, h1, h2⟩ := e.mp hp
-      simp [hp, h', h0, h1, h2]
+      simp [h', h0, h1, h2]
     · have hne : ¬ (byteD b 0 = 0 ∧ byteD b 1 = 0 ∧ byteD b 2 = 1) := fun x => hp (e.mpr x)
       have hb : (byteD b 0 == 0 && (byteD b 1 == 0 && byteD b 2 == 1)) = false := by
         cases hx : (byteD b 0 == 0 && (byteD b 1 == 0 && byteD b 2 == 1)) with
@@ -109,7 +109,248 @@ theorem consume_eq (f : F) (p : Bytes) (h : p.length = 188) : consume f p = .ok 
   generalize continuous f.cc (hpOf p) (ccOf p) = b
   generalize (splitSpec (hasAf (byteD p 3)) (hasPayload (byteD p 3)) (byteD p 4)).2 = pay
   generalize (readBits p 9 1 == 1) = us
-  cases us <;> cases b <;> cases hst : f.st <;> cases pay <;>
-    simp [headerFromBytes_eq, ccOf] <;> split <;> simp_all
+  rcases pay with _ | r
+  · cases us <;> cases b <;> cases hst : f.st <;> simp [ccOf]
+  · cases hh : hdrOk (rangeBytes p r) <;> cases us <;> cases b <;> cases hst : f.st <;>
+      simp [headerFromBytes_eq, hh, ccOf] <;> split <;> rfl
+
+theorem consume_inv {f f' : F} {p : Bytes} {evs : List Ev} (h : p.length = 188)
+    (hc : consume f p = .ok (f', evs)) : f' = (stepOf f p).1 ∧ evs = (stepOf f p).2 := by
+  rw [consume_eq f p h] at hc
+  injection hc with hc
+  rw [hc]; exact ⟨rfl, rfl⟩
+
+/-! ### the abstraction to protocol states -/
+
+def abs : St → PState
+  | .begin => .notStarted
+  | .started => .open_
+  | .ignoreRest => .idle
+
+theorem abs_open_iff (s : St) : abs s = .open_ ↔ s = .started := by cases s <;> simp [abs]
+
+/-! ### facts about the pure step, by exhaustive case split -/
+
+section pure
+variable (f : F) (us hp : Bool) (n : Nat) (pay : Option (Nat × Nat)) (hdr : Bool)
+
+theorem stepPure_accepts :
+    accepts (abs f.st) (stepPure f us hp n pay hdr).2 = some (abs (stepPure f us hp n pay hdr).1.st) := by
+  unfold stepPure
+  generalize continuous f.cc hp n = b
+  rcases f with ⟨fc, st⟩
+  cases b <;> cases st <;> cases us <;> rcases pay with _ | r <;> cases hdr <;>
+    simp [accepts, protoStep, abs] <;> split <;> simp [accepts, protoStep]
+
+theorem stepPure_cc : (stepPure f us hp n pay hdr).1.cc = some n := by
+  unfold stepPure
+  generalize continuous f.cc hp n = b
+  rcases f with ⟨fc, st⟩
+  cases b <;> cases st <;> cases us <;> rcases pay with _ | r <;> cases hdr <;>
+    simp <;> split <;> simp
+
+theorem stepPure_ccErr_mem :
+    Ev.ccErr ∈ (stepPure f us hp n pay hdr).2 ↔ continuous f.cc hp n = false := by
+  unfold stepPure
+  generalize continuous f.cc hp n = b
+  rcases f with ⟨fc, st⟩
+  cases b <;> cases st <;> cases us <;> rcases pay with _ | r <;> cases hdr <;>
+    simp <;> split <;> simp
+
+theorem stepPure_ccErr_not_tail : Ev.ccErr ∉ (stepPure f us hp n pay hdr).2.tail := by
+  unfold stepPure
+  generalize continuous f.cc hp n = b
+  rcases f with ⟨fc, st⟩
+  cases b <;> cases st <;> cases us <;> rcases pay with _ | r <;> cases hdr <;>
+    simp <;> split <;> simp
+
+theorem stepPure_begin_mem (o l : Nat) :
+    Ev.beginPkt o l ∈ (stepPure f us hp n pay hdr).2 ↔ (us = true ∧ pay = some (o, l) ∧ hdr = true) := by
+  unfold stepPure
+  generalize continuous f.cc hp n = b
+  rcases f with ⟨fc, st⟩
+  cases b <;> cases st <;> cases us <;> rcases pay with _ | ⟨r1, r2⟩ <;> cases hdr <;>
+    simp <;> (try split) <;> (try simp) <;> omega
+
+theorem stepPure_cont_mem (o l : Nat) :
+    Ev.cont o l ∈ (stepPure f us hp n pay hdr).2 ↔
+      (us = false ∧ pay = some (o, l) ∧ l ≠ 0 ∧ f.st = .started ∧ continuous f.cc hp n = true) := by
+  unfold stepPure
+  generalize continuous f.cc hp n = b
+  rcases f with ⟨fc, st⟩
+  cases b <;> cases st <;> cases us <;> rcases pay with _ | ⟨r1, r2⟩ <;> cases hdr <;>
+    simp <;> (try split) <;> (try simp) <;> omega
+
+theorem stepPure_started_iff :
+    (stepPure f us hp n pay hdr).1.st = .started ↔
+      ((us = true ∧ pay.isSome = true ∧ hdr = true) ∨
+       (us = false ∧ f.st = .started ∧ continuous f.cc hp n = true)) := by
+  unfold stepPure
+  generalize continuous f.cc hp n = b
+  rcases f with ⟨fc, st⟩
+  cases b <;> cases st <;> cases us <;> rcases pay with _ | r <;> cases hdr <;>
+    simp <;> split <;> simp
+
+/-- the state only leaves `begin` on a unit start -/
+theorem stepPure_begin_iff :
+    (stepPure f us hp n pay hdr).1.st = .begin ↔ (us = false ∧ f.st = .begin) := by
+  unfold stepPure
+  generalize continuous f.cc hp n = b
+  rcases f with ⟨fc, st⟩
+  cases b <;> cases st <;> cases us <;> rcases pay with _ | r <;> cases hdr <;>
+    simp <;> split <;> simp
+
+end pure
+
+/-! ### continuity -/
+
+theorem follows_iff (n c : Nat) : follows n c = true ↔ n = (c + 1) % 16 := by
+  unfold follows
+  have : (c + 1) &&& 0b1111 = (c + 1) % 16 := Nat.and_two_pow_sub_one_eq_mod (c + 1) 4
+  rw [this, beq_iff_eq]
+  exact eq_comm
+
+theorem continuous_false_iff (fc : Option Nat) (hp : Bool) (n : Nat) :
+    continuous fc hp n = false ↔ ∃ c, fc = some c ∧ n ≠ (if hp = true then (c + 1) % 16 else c) := by
+  cases fc with
+  | none => simp [continuous]
+  | some c =>
+    cases hp
+    · simp [continuous]
+    · have := follows_iff n c
+      cases hf : follows n c <;> simp [continuous, hf] <;> simp [hf] at this <;> exact this
+
+theorem hpOf_eq (p : Bytes) : hpOf p = (readBits p 27 1 == 1) := (afc_exact p).2
+
+theorem ccOf_lt (p : Bytes) : ccOf p < 16 := cc_lt_16 p
+
+/-! ### `run` is total on 188-byte packets and equals a pure fold -/
+
+def runPure (f : F) : List Bytes → F × List (List Ev)
+  | [] => (f, [])
+  | p :: ps => ((runPure (stepOf f p).1 ps).1, (stepOf f p).2 :: (runPure (stepOf f p).1 ps).2)
+
+theorem run_eq (f : F) (ps : List Bytes) (h : ∀ p ∈ ps, p.length = 188) :
+    run f ps = .ok (runPure f ps) := by
+  induction ps generalizing f with
+  | nil => rfl
+  | cons p ps ih =>
+    have hp : p.length = 188 := h p (by simp)
+    have ih' := ih (stepOf f p).1 (fun q hq => h q (List.mem_cons_of_mem _ hq))
+    simp only [run, consume_eq f p hp, R.ok_bind, ih', R.pure_eq, runPure]
+
+theorem run_inv {f f' : F} {ps : List Bytes} {evss : List (List Ev)} (h : ∀ p ∈ ps, p.length = 188)
+    (hr : run f ps = .ok (f', evss)) : f' = (runPure f ps).1 ∧ evss = (runPure f ps).2 := by
+  rw [run_eq f ps h] at hr
+  injection hr with hr
+  rw [hr]; exact ⟨rfl, rfl⟩
+
+theorem runPure_append (f : F) (a b : List Bytes) :
+    runPure f (a ++ b) = ((runPure (runPure f a).1 b).1, (runPure f a).2 ++ (runPure (runPure f a).1 b).2) := by
+  induction a generalizing f with
+  | nil => rfl
+  | cons p ps ih => simp only [List.cons_append, runPure, ih]
+
+theorem runPure_length (f : F) (ps : List Bytes) : (runPure f ps).2.length = ps.length := by
+  induction ps generalizing f with
+  | nil => rfl
+  | cons p ps ih => simp [runPure, ih]
+
+theorem stepOf_accepts (f : F) (p : Bytes) :
+    accepts (abs f.st) (stepOf f p).2 = some (abs (stepOf f p).1.st) := stepPure_accepts ..
+
+theorem runPure_accepts (f : F) (ps : List Bytes) :
+    accepts (abs f.st) (runPure f ps).2.flatten = some (abs (runPure f ps).1.st) := by
+  induction ps generalizing f with
+  | nil => rfl
+  | cons p ps ih =>
+    simp only [runPure, List.flatten_cons, accepts_append, stepOf_accepts, Option.bind_some, ih]
+
+/-- the events of packet `k` are those of one step from the state reached after `k` packets -/
+theorem runPure_getElem? (f : F) (ps : List Bytes) (k : Nat) (p : Bytes) (hk : ps[k]? = some p) :
+    (runPure f ps).2[k]? = some (stepOf (runPure f (ps.take k)).1 p).2 := by
+  induction ps generalizing f k with
+  | nil => simp at hk
+  | cons q qs ih =>
+    cases k with
+    | zero => simp at hk; subst hk; simp [runPure]
+    | succ k =>
+      simp at hk
+      simp only [runPure, List.getElem?_cons_succ, List.take_succ_cons]
+      exact ih _ k hk
+
+theorem runPure_snoc_cc (f : F) (a : List Bytes) (q : Bytes) :
+    (runPure f (a ++ [q])).1.cc = some (ccOf q) := by
+  rw [runPure_append]
+  simp only [runPure, stepOf]
+  exact stepPure_cc ..
+
+/-- the counter stored after `j+1` packets is the counter of packet `j` -/
+theorem runPure_take_succ_cc (f : F) (ps : List Bytes) (j : Nat) (q : Bytes) (hj : ps[j]? = some q) :
+    (runPure f (ps.take (j + 1))).1.cc = some (ccOf q) := by
+  have hlt : j < ps.length := by
+    rcases Nat.lt_or_ge j ps.length with h | h
+    · exact h
+    · rw [List.getElem?_eq_none h] at hj; cases hj
+  have : ps.take (j + 1) = ps.take j ++ [q] := by
+    rw [List.take_add_one, hj]; rfl
+  rw [this]; exact runPure_snoc_cc ..
+
+/-- quarantine over a run: from a state with no open packet, packets without unit start never open
+one and deliver no continuation data -/
+theorem runPure_quarantine (f : F) (ps : List Bytes) (hst : f.st ≠ .started)
+    (hus : ∀ p ∈ ps, usOf p = false) :
+    (∀ o l, Ev.cont o l ∉ (runPure f ps).2.flatten) ∧ (runPure f ps).1.st ≠ .started := by
+  induction ps generalizing f with
+  | nil => simp [runPure, hst]
+  | cons p ps ih =>
+    have hp : usOf p = false := hus p (by simp)
+    have h1 : (stepOf f p).1.st ≠ .started := by
+      intro h
+      rcases (stepPure_started_iff ..).mp h with ⟨hu, _⟩ | ⟨_, hs, _⟩
+      · rw [hp] at hu; cases hu
+      · exact hst hs
+    have ⟨h2, h3⟩ := ih (stepOf f p).1 h1 (fun q hq => hus q (List.mem_cons_of_mem _ hq))
+    refine ⟨?_, h3⟩
+    intro o l hm
+    simp only [runPure, List.flatten_cons, List.mem_append] at hm
+    rcases hm with hm | hm
+    · exact hst ((stepPure_cont_mem ..).mp hm).2.2.2.1
+    · exact h2 o l hm
+
+/-! ### the recognised header, in terms of the packet's own bytes -/
+
+theorem payOf_sound {p : Bytes} {o l : Nat} (h : payOf p = some (o, l)) : 1 ≤ l ∧ o + l = 188 ∧ 4 ≤ o :=
+  (split_sound (hasAf (byteD p 3)) (hasPayload (byteD p 3)) (byteD p 4)).2.1 (o, l) h
+
+theorem payloadRange_eq (p : Bytes) (h : p.length = 188) : payloadRange p = .ok (payOf p) :=
+  payload_exact p h
+
+theorem hdrOk_range (p : Bytes) (o l : Nat) (h : o + l ≤ p.length) :
+    hdrOk (rangeBytes p (o, l)) = true ↔
+      (6 ≤ l ∧ byteD p o = 0 ∧ byteD p (o + 1) = 0 ∧ byteD p (o + 2) = 1) := by
+  rw [hdrOk_iff]
+  have hlen : (rangeBytes p (o, l)).length = l := by
+    simp only [rangeBytes, List.length_take, List.length_drop]; omega
+  rw [hlen]
+  by_cases h6 : 6 ≤ l
+  · simp only [rangeBytes, byteD_take _ l 0 (by omega), byteD_take _ l 1 (by omega),
+      byteD_take _ l 2 (by omega), byteD_drop, Nat.add_zero]
+  · simp [h6]
+
+theorem headerFromBytes_some_iff (b : Bytes) :
+    Pes.headerFromBytes b = .ok (some b) ↔ hdrOk b = true := by
+  rw [headerFromBytes_eq]
+  cases hdrOk b <;> simp
+
+theorem usOf_true_iff (p : Bytes) : usOf p = true ↔ readBits p 9 1 = 1 := by simp [usOf]
+theorem usOf_false_iff (p : Bytes) : usOf p = false ↔ readBits p 9 1 ≠ 1 := by simp [usOf]
+
+/-- decidable equality on results, for the concrete `decide` examples only -/
+scoped instance instDecEqR {α : Type} [DecidableEq α] : DecidableEq (R α)
+  | .ok a, .ok b => if h : a = b then isTrue (h ▸ rfl) else isFalse (fun e => h (R.ok.inj e))
+  | .panic s, .panic t => if h : s = t then isTrue (h ▸ rfl) else isFalse (fun e => h (R.panic.inj e))
+  | .ok _, .panic _ => isFalse (fun e => nomatch e)
+  | .panic _, .ok _ => isFalse (fun e => nomatch e)
 
 end Ts.Lemmas.C08
